@@ -60,7 +60,14 @@ def pCall : P String := do
   let ts := ";".intercalate (tr.map fun p => p.1.show ++ "=" ++ showArr p.2)
   pure s!"{ts}|{kindShow res.kind}|{showArr res.out}"
 
+/-- `diffint <bits> <opt> <n> probe... <n> base...` → promoted differences, exact -/
+def pDiffInt : P String := do
+  let bits ← P.nat; let opt ← pOpt
+  let probe ← P.list P.nat; let base ← P.list P.nat
+  pure (showRats (diffPromoted bits opt base probe))
+
 def dispatch : List String → Option String
+  | "diffint" :: rest => (pDiffInt.run rest).map (·.1)
   | "call" :: rest => (pCall.run rest).map (·.1)
   | _ => none
 
